@@ -96,6 +96,12 @@ func normalizeDocument(schema *Schema, doc *ast.Document, operationName string) 
 		return visitor.ActionNoChange, nil
 	}}, nil)
 
+	for _, def := range doc.Definitions {
+		if fd, ok := def.(*ast.FragmentDefinition); ok && fd != nil {
+			ctx.fragKeys = collectResponseKeys(fd.SelectionSet, ctx.fragKeys)
+		}
+	}
+
 	newOp := cloneOperation(op)
 	ctx.normalizeSelectionSet(newOp.SelectionSet, rootType)
 
@@ -137,6 +143,36 @@ func printedKey(doc *ast.Document) string {
 	return "doc:" + s
 }
 
+// collectResponseKeys adds the response key of every field in `sel` (at any depth, through inline fragments) to `into`.
+func collectResponseKeys(sel *ast.SelectionSet, into map[string]bool) map[string]bool {
+	if sel == nil {
+		return into
+	}
+	for _, isel := range sel.Selections {
+		switch s := isel.(type) {
+		case *ast.Field:
+			if into == nil {
+				into = map[string]bool{}
+			}
+			into[responseKeyOf(s)] = true
+			into = collectResponseKeys(s.SelectionSet, into)
+		case *ast.InlineFragment:
+			into = collectResponseKeys(s.SelectionSet, into)
+		}
+	}
+	return into
+}
+
+func responseKeyOf(f *ast.Field) string {
+	if f.Alias != nil {
+		return f.Alias.Value
+	}
+	if f.Name != nil {
+		return f.Name.Value
+	}
+	return ""
+}
+
 // normCtx threads state across the recursive walk: schema for type
 // lookups, synth counter, accumulated args + var defs.
 type normCtx struct {
@@ -146,6 +182,11 @@ type normCtx struct {
 	synthArgs  map[string]interface{}
 	newVarDefs []*ast.VariableDefinition
 	byLiteral  map[string]string // (type, printed literal) -> synthetic variable already standing for it
+	// response keys (alias, else name) of every field inside a fragment definition of the document. Fragment
+	// definitions are not rewritten, so a field of the operation that may merge with one of them (same response
+	// key) must keep its literal arguments too: OverlappingFieldsCanBeMerged compares the argument values as
+	// written, and `f(a: $__pcv0)` next to the fragment's `f(a: 3)` would be reported as a conflict.
+	fragKeys map[string]bool
 }
 
 func (c *normCtx) nextName() string {
@@ -198,7 +239,7 @@ func (c *normCtx) normalizeField(f *ast.Field, parentType *Object) {
 	if fieldDef == nil {
 		return
 	}
-	if len(f.Arguments) > 0 {
+	if len(f.Arguments) > 0 && !c.fragKeys[responseKeyOf(f)] {
 		// Build an arg-name → argDef map for O(1) lookup.
 		argDefByName := make(map[string]*Argument, len(fieldDef.Args))
 		for _, ad := range fieldDef.Args {
